@@ -394,6 +394,7 @@ def check(pid, tier, seed, replay=None, only_law=None, scale=1.0):
             results.append(r)
 
     per_law = {}
+    crashed_laws = set()
     for r in results:
         pl = per_law.setdefault(r["law"], dict(evaluations=0, nontrivial=0, skipped_known=0, hashes=set(), labels={}, known_hits={}, worst={}, samples=[], capped=False, exhaustive=True, kind="rc", wall=0.0, nt_rule=""))
         st = None
@@ -442,7 +443,15 @@ def check(pid, tier, seed, replay=None, only_law=None, scale=1.0):
                 continue
             # minimise in fork mode, then confirm 3x
             small = src + ".min"
-            subprocess.run([exe, "--shrink", src, "--out", small] + (["--known", ",".join(active)] if active else []), env=env_for(), capture_output=True, timeout=3600)
+            if r["law"] in crashed_laws:
+                continue        # one minimised crash per law is enough (fork-mode minimisation is expensive)
+            crashed_laws.add(r["law"])
+            senv = env_for()
+            senv["ASAN_OPTIONS"] = ASAN_ENV.replace("symbolize=1", "symbolize=0")
+            try:
+                subprocess.run([exe, "--shrink", src, "--out", small] + (["--known", ",".join(active)] if active else []), env=senv, capture_output=True, timeout=900)
+            except subprocess.TimeoutExpired:
+                pass
             use = small if os.path.exists(small) and os.path.getsize(small) > 0 else src
             rp = save_replay(pid, use, r["law"] + ("-hang" if is_hang else "-crash"))
             oks = [run_replay(exe, rp, active, timeout=lawinfo["hang_s"] * 10 + 120)[0] for _ in range(3)]
